@@ -72,6 +72,7 @@ func ZzC09() {
 				i = k
 			}
 		}
+		zz.Gate("answer:" + string(to)) // fixes the arrival order of the answers for the native replay
 		if answer[i] < 0 {
 			return nil, 0, zzErrNet9
 		}
